@@ -165,6 +165,44 @@ func (c *Cluster) End(skip map[int]bool) (hashes [][]byte, events []string) {
 	return
 }
 
+// EmptyBlocks runs n empty blocks on every replica (each replica loops inside its own process, the
+// replicas run concurrently). It returns, per replica, the application hash and the digest of the
+// EndBlock response of every block.
+func (c *Cluster) EmptyBlocks(n int64) (hashes [][][]byte, evs [][][]byte) {
+	type out struct {
+		rs  *replica.Resp
+		err error
+	}
+	res := make([]out, len(c.Reps))
+	done := make(chan int, len(c.Reps))
+	for i, r := range c.Reps {
+		go func(i int, r *replica.Client) {
+			rs, err := r.Call(&replica.Req{Op: "empty_blocks", Height: c.Height, Count: n, Time: c.Time.UnixNano(), Proposer: c.proposer()})
+			res[i] = out{rs, err}
+			done <- i
+		}(i, r)
+	}
+	for range c.Reps {
+		<-done
+	}
+	for i, o := range res {
+		if o.err != nil {
+			infra("replica call empty_blocks: %v", o.err)
+		}
+		if o.rs.Panic != "" {
+			c.S.FailT("block-panic", "", map[string]string{"replica": c.Names[i]}, "replica %s panicked in %s", c.Names[i], o.rs.Panic)
+		}
+		hashes = append(hashes, o.rs.Hashes)
+		evs = append(evs, o.rs.EvDigests)
+	}
+	c.Height += n
+	c.Time = c.Time.Add(time.Duration(n) * 5 * time.Second)
+	if len(hashes) > 0 && int64(len(hashes[0])) == n {
+		c.LastHash = hashes[0][n-1]
+	}
+	return
+}
+
 // Restart kills replica i (SIGKILL) and starts a new process on the same database.
 func (c *Cluster) Restart(i int) {
 	c.Reps[i].Kill()
